@@ -135,9 +135,6 @@ package verifspec
 //@ extern go/types.Object.Pkg
 //@   param o
 //@   assigns nothing
-//@ extern go/types.Object.Name
-//@   param o
-//@   assigns nothing
 //@ extern go/types.Object.Exported
 //@   param o
 //@   assigns nothing
